@@ -25,3 +25,33 @@ package min
 // C03: the connection is not touched (no write, close, read, deadline change): the frame is the buffer only
 //@   assigns bufStr(data), obj(data)
 //@   checks safety
+
+// C01 (transport identification secret, min): the identifier under which the station files a registration and the tag
+// the client sends are the same function of the shared secret - HMAC with the label "MinTrasportHMACString".
+//@ import io "io"
+//@ import core "github.com/refraction-networking/conjure/pkg/core"
+//@ func (t Transport) GetIdentifier(d transports.Registration) string
+//@   requires d != nil
+//@   atcall ConjureHMAC before: assert @C01: arg1 == "MinTrasportHMACString"
+//@   atcall ConjureHMAC after: snap tag := string(res)
+//@   ensures @C01: defined(tag) && result == tag
+//@ func (t *ClientTransport) PrepareKeys(pubkey [32]byte, sharedSecret []byte, dRand io.Reader) error
+//@   requires t != nil
+//@   atcall ConjureHMAC before: assert @C01: arg1 == "MinTrasportHMACString" && arg0 == sharedSecret
+//@   atcall ConjureHMAC after: snap tag := res
+//@   ensures @C01: result == nil && defined(tag) && t.connectTag == tag
+
+// the client's first flight is exactly that tag, and its destination port is the seeded one (or 443) - the same
+// routine the station's GetDstPort uses
+//@ import net "net"
+//@ func (t *ClientTransport) WrapConn(conn net.Conn) (net.Conn, error)
+//@   requires t != nil && conn != nil
+//@   atcall Write before: assert @C01: arg0 == conn && arg1 == t.connectTag
+//@   ensures @C01: result1 == nil ==> result0 == conn && nwrites(conn) == old(nwrites(conn)) + 1
+//@ func (t *ClientTransport) GetDstPort(seed []byte) (uint16, error)
+//@   requires t != nil
+//@   atcall PortSelectorRange before: assert @C01: arg0 == portRangeMin && arg1 == portRangeMax && arg2 == seed
+//@   ensures @C01: old(t.sessionParams == nil || t.sessionParams.RandomizeDstPort == nil || !*t.sessionParams.RandomizeDstPort) ==> result0 == 443 && result1 == nil
+//@ func (t Transport) GetDstPort(libVersion uint, seed []byte, params any) (uint16, error)
+//@   atcall PortSelectorRange before: assert @C01: arg0 == portRangeMin && arg1 == portRangeMax && arg2 == seed && libVersion >= 3
+//@   ensures @C01: libVersion < 3 || params == nil ==> result0 == 443 && result1 == nil
